@@ -284,6 +284,30 @@ def run_c05(tier, budget, rnd, res, script, post):
     from incomplete_cooperative.shapley import compute_shapley_value_for_player
     StubGame, StubIncomplete = make_stubs()
     wide_game_case(res, rnd, "C05")          # the per-player Shapley values are the building block of exploitability
+    # large player counts in ASCENDING order within one process (per-process tables that grow with n; coalition ids beyond 2^13):
+    # integer bounds, real code only, oracle = the binomially weighted gap (relative tolerance 1e-9)
+    import numpy as _np
+    for n_big in ((10, 11, 14) if tier == "quick" else (10, 11, 12, 14, 15)):
+        if budget.left() < 20:
+            res.notes.append("C05: large-n exploitability cases skipped (budget)")
+            break
+        Nb = 2 ** n_big
+        lo_b = _np.array([rnd.randint(-9, 9) for _ in range(Nb)], dtype=float)
+        hi_b = lo_b + _np.array([rnd.randint(0, 5) for _ in range(Nb)], dtype=float)
+        lo_b[0] = hi_b[0] = 0.0
+        hi_b[Nb - 1] = lo_b[Nb - 1]
+        sizes_b = _np.array([popc(c) for c in range(Nb)])
+        from math import comb as _comb
+        want_b = float(_np.sum((hi_b - lo_b) / _np.array([_comb(n_big, int(k_)) for k_ in sizes_b], dtype=float)))
+        gb = real_table(n_big, [True] + [False] * (Nb - 2) + [True], [Fraction(int(x)) for x in lo_b], [Fraction(int(x)) for x in hi_b])
+        rb = call(compute_exploitability, gb)
+        res.evaluations += 1
+        res.count(f"C05:large-n={n_big}")
+        if rb[0] != "ok" or abs(float(rb[1]) - want_b) > 1e-9 * max(1.0, abs(want_b)):
+            res.violation(f"exploitability of a {n_big}-player game ≠ Σ (hi−lo)/C(n,|S|) beyond float rounding (computed after smaller games in "
+                          f"the same process)", {"n": n_big, "lo": [int(x) for x in lo_b], "hi": [int(x) for x in hi_b],
+                                                 "reported": repr(rb[1]) if rb[0] == "ok" else rb[1], "expected": want_b,
+                                                 "order_in_process": "ascending: 10, 11, 14"}, key="C05:large-n")
     nmax = 6 if tier == "quick" else 8
     per_n = 150 if tier == "quick" else 1200
     for n in range(1, nmax + 1):
@@ -326,6 +350,22 @@ def run_c05(tier, budget, rnd, res, script, post):
                     some = [frac(x) for x in mgg.get_values([_C(c) for c in sub])]
                 except Exception as ex:      # noqa: BLE001
                     one, some = f"raised {type(ex).__name__}", None
+                # the max-gain game of player i is a game like any other: BOTH Shapley entry points, for EVERY player (not only i)
+                if n <= 5:
+                    from incomplete_cooperative.shapley import compute_shapley_value as _csv
+                    phi_want = shapley_exact(n, want)
+                    try:
+                        singles = [frac(compute_shapley_value_for_player(p_, mgg)) for p_ in range(n)]
+                        alls = [frac(x) for x in _csv(mgg)]
+                    except Exception as ex:      # noqa: BLE001
+                        singles, alls = f"raised {type(ex).__name__}", None
+                    tol_ = lambda a_, b_: abs(a_ - b_) <= Fraction(1, 10 ** 9) * max(1, abs(b_))      # noqa: E731
+                    if not (isinstance(singles, list) and all(tol_(a_, b_) for a_, b_ in zip(singles, phi_want))
+                            and all(tol_(a_, b_) for a_, b_ in zip(alls, phi_want))):
+                        res.violation("Shapley value of the max-gain game of player i, asked for another player through the single-player / "
+                                      "all-players entry, is not the average marginal contribution in that game",
+                                      dict(replay, maxgain_player=i, single=repr(singles)[:300], all=repr(alls)[:300],
+                                           expected=[rs(x) for x in phi_want]), key="C05:maxgain-other-player")
                 if [frac(x) for x in mg[1]] != want or one != want or some != [want[c] for c in sub]:
                     res.violation("the max-gain game of a player is not 'upper bound on coalitions containing the player, lower "
                                   "bound elsewhere' at every entry point (get_values / get_values(coalitions) / get_value)",
@@ -568,6 +608,63 @@ def run_c06(tier, budget, rnd, res, script, post):
                 if r_bad[0] == "ok":
                     res.violation("Shapley value returned numbers for a game with an unknown coalition",
                                   dict(replay, unknown=c), key="C06:incomplete")
+    # ---- several LIVE all-players iterators at once (the entry point is a generator: zip / next in any order is legitimate),
+    # repeated single-player calls on one object, and game classes other than the table (graph game, max-gain game, stub):
+    # every call must still be the average over orderings of the game it was asked about
+    from incomplete_cooperative.exploitability import MaxGainGame as _MGG
+    from incomplete_cooperative.graph_game import GraphCooperativeGame as _GCG
+    for t in range(25 if tier == "quick" else 250):
+        if not budget.ok():
+            break
+        n = rnd.randint(2, 5)
+        N = 2 ** n
+        va, vb = gen_game(rnd, n, "random"), gen_game(rnd, n, rnd.choice(kinds))
+        vc = [x + y for x, y in zip(va, vb)]
+        ga, gb_, gc = real_complete(n, va), real_complete(n, vb), real_complete(n, vc)
+        ea, eb, ec = shapley_exact(n, va), shapley_exact(n, vb), shapley_exact(n, vc)
+        ctx = {"n": n, "values": [rs(x) for x in va], "other_values": [rs(x) for x in vb]}
+        res.evaluations += 1
+        res.count("C06:interleaved-iterators")
+        try:
+            ia, ib, ic = compute_shapley_value(ga), compute_shapley_value(gb_), compute_shapley_value(gc)
+            got = []
+            first = frac(next(ia))                      # one iterator started, then others run, then the first continues
+            rows = [(first, frac(next(ib)), frac(next(ic)))] + [(frac(x), frac(y), frac(z)) for x, y, z in zip(ia, ib, ic)]
+            got = [list(col_) for col_ in zip(*rows)]
+            twice = [frac(compute_shapley_value_for_player(p_, ga)) for p_ in list(range(n)) + list(range(n))]
+        except Exception as ex:      # noqa: BLE001
+            got, twice = f"raised {type(ex).__name__}: {ex}", None
+        if got != [ea, eb, ec]:
+            res.violation("several live compute_shapley_value iterators (consumed interleaved) do not each return the Shapley values of "
+                          "their own game", dict(ctx, got=repr(got)[:400], expected=[[rs(x) for x in e_] for e_ in (ea, eb, ec)]),
+                          key="C06:interleaved")
+        elif twice != ea + ea:
+            res.violation("asking every player twice through the single-player entry on one game object changes the answers",
+                          dict(ctx, got=repr(twice)[:300]), key="C06:repeated-single")
+        # other game classes through both entry points, every player
+        M_ = [[Fraction(rnd.randint(0, 6)) if j > i else Fraction(0) for j in range(n)] for i in range(n)]
+        gg = _GCG(np.array([[float(x) for x in row] for row in M_], dtype=float))
+        vg = [sum((M_[i][j] for i in range(n) for j in range(i + 1, n) if c >> i & 1 and c >> j & 1), Fraction(0)) for c in range(N)]
+        lo_ = [Fraction(rnd.randint(-6, 6)) for _ in range(N)]
+        hi_ = [lo_[c] + rnd.randint(0, 4) for c in range(N)]
+        lo_[0] = hi_[0] = Fraction(0)
+        q = rnd.randrange(n)
+        mg_ = _MGG(real_table(n, [True] + [False] * (N - 1), lo_, hi_), q)
+        vm = [hi_[c] if c >> q & 1 else lo_[c] for c in range(N)]
+        for label, game_, vals_ in (("graph game", gg, vg), (f"max-gain game of player {q}", mg_, vm)):
+            want_ = shapley_exact(n, vals_)
+            try:
+                s1 = [frac(compute_shapley_value_for_player(p_, game_)) for p_ in range(n)]
+                s2 = [frac(x) for x in compute_shapley_value(game_)]
+            except Exception as ex:      # noqa: BLE001
+                s1, s2 = f"raised {type(ex).__name__}: {ex}", None
+            close_ = lambda a_, b_: isinstance(a_, list) and len(a_) == len(b_) and all(abs(x - y) <= Fraction(1, 10 ** 9) * max(1, abs(y)) for x, y in zip(a_, b_))   # noqa: E731
+            res.count(f"C06:class:{label.split(' of')[0]}")
+            if not close_(s1, want_) or not close_(s2, want_):
+                res.violation(f"Shapley value of a {label}: the single-player entry (asked for every player) / the all-players entry is "
+                              f"not the average over orderings", {"n": n, "class": label, "values": [rs(x) for x in vals_],
+                                                                  "single": repr(s1)[:300], "all": repr(s2)[:300],
+                                                                  "expected": [rs(x) for x in want_]}, key="C06:other-class")
     for t in range(30 if tier == "quick" else 300):
         if not budget.ok():
             break
